@@ -50,3 +50,53 @@ func VerifH_C19_AcceptedWithinSupportedSize() {
 	}
 }
 
+
+// GenModuli (concrete requests, generator run natively): the primes generated for LogQ / LogP requests are distinct,
+// congruent to 1 modulo 2N, within one bit of the requested size and never above 2^61 (the bound of the lazy NTT).
+type vGen struct {
+	Ok   bool
+	Q, P []uint64
+}
+
+func VerifSetup_GenModuli(logNthRoot int, logQ, logP []int) vGen {
+	q, p, err := GenModuli(logNthRoot, logQ, logP)
+	return vGen{Ok: err == nil, Q: q, P: p}
+}
+
+func VerifH_C19_GenModuli() {
+	// sizes above the documented maxima (60 bits for Q, 61 for P) are refused
+	vAssert(!VerifSetup_GenModuli(5, []int{61}, nil).Ok, "GenModuli-refuses-61-bit-Q")
+	vAssert(!VerifSetup_GenModuli(5, []int{60}, []int{62}).Ok, "GenModuli-refuses-62-bit-P")
+	reqs := []struct {
+		logQ, logP []int
+	}{
+		{[]int{60, 60}, []int{61}},
+		{[]int{60, 45, 45}, []int{61, 61}},
+		{[]int{55, 55, 55, 55}, nil},
+		{[]int{30, 60, 30}, []int{30}},
+		{[]int{60, 60, 60, 60, 60, 60}, []int{61, 61, 61}},
+	}
+	for ri, rq := range reqs {
+		tag := "request" + vItoa(ri)
+		g := VerifSetup_GenModuli(5, rq.logQ, rq.logP)
+		vAssert(g.Ok && len(g.Q) == len(rq.logQ) && len(g.P) == len(rq.logP), tag+"-GenModuli-succeeds-with-the-requested-counts")
+		if !g.Ok {
+			continue
+		}
+		seen := map[uint64]bool{}
+		check := func(ps []uint64, logs []int, what string) {
+			for i, p := range ps {
+				vAssert(!seen[p], tag+what+"-primes-are-distinct")
+				seen[p] = true
+				vAssert(p&31 == 1, tag+what+"-prime-is-1-mod-2N")
+				vAssert(p < 1<<61, tag+what+"-prime-below-2^61")
+				lo, hi := uint64(1)<<uint(logs[i]-1), uint64(1)<<uint(logs[i])
+				hi += hi >> 1
+				vAssert(p > lo && p < hi, tag+what+"-prime-close-to-the-requested-size")
+			}
+		}
+		check(g.Q, rq.logQ, "-Q")
+		check(g.P, rq.logP, "-P")
+	}
+	vCover("C19-genmoduli-reached")
+}
